@@ -137,13 +137,14 @@ def check_orient(case, rec):
     ref = refmath.reference_mean(shim, info, pars, (qx, qy), "2d", cutoff=0.0)
     ab = ref["abs"]
     norm = ab["tw"] if ab["tw"] else 1.0
-    scale = abs(pars.get("scale", 1.0)) * (np.max(ab["F2"]) / norm) / abs(ref["shell"])
+    floor = 1e-14 * c01.contrast_scale(info, pars, ref["shell"])
+    scale = abs(pars.get("scale", 1.0)) * (np.max(ab["F2"]) / norm) / abs(ref["shell"]) + floor / TOL
     tag = "%s:%s" % (sym, "jitter" if jitter_pts >= 2 else "view")
     msg = c01.close(np.asarray(got) - bkg, ref["I"] - bkg, scale, TOL)
     if msg:
         rec.fail("reference:" + tag, "%s: %s" % (name, msg))
         return
-    sc = max(np.max(np.abs(np.asarray(got) - bkg)), 1e-300)
+    sc = max(np.max(np.abs(np.asarray(got) - bkg)), 1e-300) + floor / 1e-9
     # ---- rotating the detector point and phi by the same angle
     d = math.radians(case["delta"])
     rqx, rqy = qx * math.cos(d) - qy * math.sin(d), qx * math.sin(d) + qy * math.cos(d)
